@@ -8,7 +8,11 @@ set -u
 HERE="$(cd "$(dirname "$0")" && pwd)"
 export GOFLAGS=-mod=mod GOPROXY=off GOSUMDB=off GOTOOLCHAIN=local
 unset GOWORK
-(cd "$HERE/checker" && go build -o "$HERE/bin/verifchk" .) || exit 2
+BIN="${VERIFCHK:-}"
+if [ -z "$BIN" ]; then
+  BIN="$HERE/bin/verifchk"
+  (cd "$HERE/checker" && go build -o "$BIN" .) || exit 2
+fi
 WT=$(mktemp -d /tmp/vselftest.XXXXXX)
 EV=$(mktemp -d /tmp/vselftest-ev.XXXXXX)
 trap 'git -C /repo worktree remove --force "$WT" >/dev/null 2>&1; rm -rf "$WT" "$EV"' EXIT
@@ -26,7 +30,7 @@ for p in $PATCHES; do
   neutral=$(grep -c '^# neutral' "$p")
   props=$(echo "$exp" | awk '{print $1}' | sort -u | tr '\n' ',' | sed 's/,$//')
   [ "$neutral" -gt 0 ] && props=$(sed -n 's/^# neutral: *//p' "$p" | tr ' ' ',')
-  out=$(VERIF_REPO="$WT" VERIF_DIR="$EV" VERIF_ONLY="$props" "$HERE/bin/verifchk" all quick 2>&1)
+  out=$(VERIF_REPO="$WT" VERIF_DIR="$EV" VERIF_ONLY="$props" "$BIN" all quick 2>&1)
   if [ "$neutral" -gt 0 ]; then
     if echo "$out" | grep -q '^VIOLATION'; then echo "FALSE-ALARM $(basename $p):"; echo "$out" | grep -v 'rule instances' | cut -c1-300 | head -5; fail=1; else echo "ok-neutral $(basename $p)"; fi
     continue
